@@ -16,7 +16,10 @@ type gen struct {
 	g    *rng
 	tier string
 	out  []string
+	ids  int // long-lived objects of a stream are numbered, never drawn: two blocks must not share one
 }
+
+func (x *gen) nextID() int { x.ids++; return x.ids }
 
 func (x *gen) emit(format string, a ...interface{}) { x.out = append(x.out, fmt.Sprintf(format, a...)) }
 
@@ -1279,7 +1282,7 @@ func (x *gen) historyOps(steps int) {
 		spec recipeSpec
 	}
 	pool := make([]obj, 3)
-	base := x.g.intn(1 << 20)
+	base := x.nextID()
 	for i := range pool {
 		pool[i].spec = x.recipe(x.g.intn(4))
 	}
@@ -1361,7 +1364,7 @@ func (x *gen) historyOps(steps int) {
 // separator runs out of trials, the first call again. A separator function must not remember
 // anything between calls.
 func (x *gen) sepHistoryOps() {
-	base := x.g.intn(1 << 20)
+	base := x.nextID()
 	sets := [][2]string{{"01234", "56789"}, {"ab", "cd"}, {"x", "yz"}}[x.g.intn(3)]
 	var sr recipeSpec
 	sr.L = 2
